@@ -156,6 +156,67 @@ Section HashFileProofs.
     intros ops Hok. apply (hashfile_fresh_from ops [] {| f_fs := []; f_lru := [] |}); auto.
     constructor; simpl; try tauto; try discriminate. intros p m sz c c' [].
   Qed.
+
+  (* the lru list never exceeds maxsize *)
+  Lemma lru_take_length k l v rest :
+    lru_take ARGS HV aeqb k l = Some (v, rest) -> length l = S (length rest).
+  Proof.
+    revert v rest. induction l as [|[k' v'] l IH]; intros v rest; simpl; [discriminate|].
+    destruct (fkeqb ARGS aeqb k k').
+    - intros H; injection H as <- <-. reflexivity.
+    - destruct (lru_take ARGS HV aeqb k l) as [[w l'']|]; [|discriminate].
+      intros H; injection H as <- <-. simpl. f_equal. eapply IH; reflexivity.
+  Qed.
+
+  Lemma hashfile_bounded : forall ops s,
+    0 <= maxsize -> Z.of_nat (length (f_lru s)) <= maxsize ->
+    Z.of_nat (length (f_lru (fst (run s ops)))) <= maxsize.
+  Proof.
+    induction ops as [|o ops IH]; intros s Hm Hb; [exact Hb|].
+    unfold run in *. simpl.
+    assert (H1 : Z.of_nat (length (f_lru (fst (step s o)))) <= maxsize).
+    { unfold step, fstep. destruct o as [p c m|p|p x]; cbn [fst f_lru]; try exact Hb.
+      destruct (fs_get C (f_fs s) p) as [[c m]|]; [|exact Hb].
+      destruct (lru_take ARGS HV aeqb (p, m, size_of c, x) (f_lru s)) as [[v rest]|] eqn:Ht.
+      - apply lru_take_length in Ht. cbn [fst f_lru]. rewrite app_length. simpl. lia.
+      - destruct (fresh c x) as [v|e]; [|exact Hb]. cbn [fst f_lru].
+        rewrite app_length. simpl.
+        destruct (maxsize <? Z.of_nat (length (f_lru s) + 1)) eqn:Hlt; [|rewrite app_length; simpl; lia].
+        destruct (f_lru s) as [|y l]; simpl in *; [lia|]. rewrite app_length; simpl. lia. }
+    fold step. destruct (step s o) as [s1 r]. specialize (IH s1 Hm H1).
+    destruct (frun C ARGS HV E aeqb size_of fresh maxsize s1 ops) as [s2 rs]. exact IH.
+  Qed.
+
+  (* a clock that advances with every write satisfies the hypothesis *)
+  Fixpoint mono (hi : Z) (ops : list (fop C ARGS)) : Prop :=
+    match ops with
+    | [] => True
+    | FWrite p c m :: r => hi < m /\ mono m r
+    | _ :: r => mono hi r
+    end.
+
+  Lemma mono_stats_ok : forall ops seen hi,
+    (forall p m sz c, In (p, m, sz, c) seen -> m <= hi) ->
+    mono hi ops -> stats_ok C ARGS size_of seen ops.
+  Proof.
+    induction ops as [|o ops IH]; intros seen hi Hs Hm; [exact I|].
+    destruct o as [p c m|p|p x]; simpl in *.
+    - destruct Hm as [Hlt Hm]. split.
+      + intros c' Hin. apply Hs in Hin. lia.
+      + apply (IH _ m); [|exact Hm]. intros p' m' sz c' [Heq|Hin].
+        * injection Heq as <- <- <- <-. lia.
+        * apply Hs in Hin. lia.
+    - now apply (IH _ hi).
+    - now apply (IH _ hi).
+  Qed.
+
+  Lemma hashfile_fresh_monotone_clock : forall ops t0,
+    mono t0 ops ->
+    map (fobs HV E) (snd (run {| f_fs := []; f_lru := [] |} ops)) = spec [] ops.
+  Proof.
+    intros ops t0 Hm. apply hashfile_fresh. apply (mono_stats_ok ops [] t0); [|exact Hm].
+    intros p m sz c [].
+  Qed.
 End HashFileProofs.
 
 (* without the hypothesis the cache is stale: a rewrite that keeps size and
